@@ -622,6 +622,28 @@ Qed.
 Lemma req_lreq_all : forall (B B' : list mfile), Forall2 req B B' -> Forall2 lreq B B'.
 Proof. induction 1; constructor; [apply req_lreq|]; assumption. Qed.
 
+Lemma last_opt_rel' {A} (R : A -> A -> Prop) (l l' : list A) x :
+  Forall2 R l l' -> last_opt l = Some x -> exists x', last_opt l' = Some x' /\ R x x'.
+Proof.
+  intros HF Hx. pose proof (last_opt_rel R l l' HF) as H. rewrite Hx in H.
+  destruct (last_opt l') as [x'|]; [|contradiction]. exists x'. split; [reflexivity|exact H].
+Qed.
+
+Lemma forall_snd_transfer (Q : cst -> Prop) (B B' : list mfile) :
+  map snd B' = map snd B -> Forall (fun f => Q (snd f)) B -> Forall (fun f => Q (snd f)) B'.
+Proof.
+  intros H HB. apply (proj1 (Forall_map snd Q B')). rewrite H. apply (proj2 (Forall_map snd Q B)). exact HB.
+Qed.
+
+Lemma chain_intro (X : list mfile) z : links X -> last_opt X = Some z -> g_close (fst z) = false -> chain X.
+Proof. intros Hl Hz Hc. split; [exact Hl|]. rewrite Hz. exact Hc. Qed.
+
+Lemma last_id_intro (X : list mfile) z : last_opt X = Some z -> last_id X = Some (f_id z).
+Proof. intros Hz. unfold last_id. rewrite Hz. reflexivity. Qed.
+
+Lemma files_end_intro (X : list mfile) z : last_opt X = Some z -> files_end X = Some (c_end (snd z)).
+Proof. intros Hz. unfold files_end. rewrite Hz. reflexivity. Qed.
+
 (** * save_new_snapshot_pointer for an index the log holds *)
 (** side condition found by the proof: a head file with id 0 (a pointer file in front of file 1) lies
     wholly at or below the new pointer, so that it is dropped by the split-off.  Otherwise the new
@@ -635,3 +657,237 @@ Proof.
   intros [_ Hh] Hfl. destruct fs as [|f fs]; [exact I|]. cbn [ptr_head_ok].
   destruct (N.eq_dec (f_id f) 0) as [E|E]; [right; specialize (Hh E); lia|left; lia].
 Qed.
+
+Theorem mgr_save_pointer_rep_floor : forall m (fs : list mfile) ptr,
+  mgr_rep m fs -> ptr_ok fs ptr -> ptr_head_ok fs ptr ->
+  exists fs', mgr_rep (mgr_save_pointer m ptr) fs' /\
+    m_limit (mgr_save_pointer m ptr) = m_limit m /\ m_pre_ptr (mgr_save_pointer m ptr) = m_pre_ptr m /\
+    files_vis fs' = ptr :: above (r_index ptr) (files_vis fs) /\
+    files_first fs' = Some (r_index ptr) /\ files_end fs' = files_end fs /\
+    (forall fl, floor_ok fl fs -> floor_ok (N.max fl (r_index ptr + 1)) fs').
+Proof.
+  intros m fs ptr R (Hrok & Hrne & a & e & Hfa & Hfe & Hae) Hhead.
+  rewrite save_pointer_ins. remember (r_index ptr + 1) as k eqn:Hk.
+  (* [k] is kept abstract ([subst] must not unfold it) *)
+  assert (Hk1 : k <= r_index ptr + 1) by lia. assert (Hk2 : r_index ptr + 1 <= k) by lia. clear Hk.
+  pose proof (rp_files m fs R) as Hok. destruct (rp_chain m fs R) as [Hlinks Hopen].
+  pose proof (rp_ids m fs R) as Hids. pose proof (rp_cur m fs R) as Hcur. unfold last_id in Hcur.
+  (* the last file is open and ends at e *)
+  unfold files_end in Hfe. destruct (@last_opt mfile fs) as [[gz cz]|] eqn:Ez; [|discriminate].
+  cbn [fst snd] in *. inversion Hfe as [Hze]. clear Hfe.
+  assert (Hzin : In (gz, cz) fs).
+  { destruct (last_opt_some_snoc fs _ Ez) as (fs0 & ->). apply in_or_app. right. left. reflexivity. }
+  assert (Hzok : file_ok (gz, cz)) by (rewrite Forall_forall in Hok; apply Hok; exact Hzin).
+  assert (HkU : k < U64MAX) by (destruct Hzok as (_ & _ & _ & _ & Hm & _); lia).
+  assert (Hex : Exists (fun f => ge_end k (fst f) = false) fs).
+  { apply Exists_exists. exists (gz, cz). split; [exact Hzin|]. cbn [fst]. apply ge_end_false.
+    rewrite (g_end_open gz Hopen). exact HkU. }
+  destruct (first_kept k fs Hex) as (A & [g c] & B & Hfs & HA & Hg). cbn [fst] in Hg. apply ge_end_false in Hg.
+  subst fs. clear Hex Hzin.
+  apply Forall_app in Hok. destruct Hok as [HokA HokL].
+  apply links_app in Hlinks. destruct Hlinks as (HlA & HlL & Hjoin).
+  pose proof (tail_above k B (g, c) HlL HokL Hg) as Ht.
+  assert (HL : Forall (fun f => ge_end k (fst f) = false) ((g, c) :: B)).
+  { constructor; [apply ge_end_false; exact Hg|]. eapply Forall_impl; [|exact Ht].
+    cbn beta. intros f [_ Hf]. apply ge_end_false. exact Hf. }
+  inversion HokL as [|? ? Hgc HokB]; subst.
+  destruct (Hgc) as (W & Hfirst & Hsp & Hle & Hmax & Hcnt).
+  (* the dropped files end at or below k *)
+  assert (HAend : forall A0 x, A = A0 ++ [x] -> c_end (snd x) <= k /\ g_close (fst x) = true).
+  { intros A0 [gx cx] ->. apply Forall_app in HA. destruct HA as [_ HA]. inversion HA as [|? ? Hx _]; subst.
+    apply Forall_app in HokA. destruct HokA as [_ HokA]. inversion HokA as [|? ? Hxok _]; subst.
+    cbn [fst snd] in *. apply ge_end_true in Hx. destruct (g_close gx) eqn:E.
+    - rewrite (g_end_closed gx cx Hxok E) in Hx. split; [exact Hx|reflexivity].
+    - rewrite (g_end_open gx E) in Hx. lia. }
+  assert (Hck : c_split c <= k).
+  { destruct (list_snoc_cases A) as [->|(A0 & x & HAx)].
+    - cbn [app files_first snd] in Hfa. inversion Hfa. lia.
+    - destruct (HAend A0 x HAx) as [Hxe _]. subst A. rewrite last_opt_snoc in Hjoin.
+      destruct Hjoin as (Hj & _ & _). cbn [snd] in Hj. lia. }
+  assert (Hclosed : B <> [] -> g_close g = true).
+  { destruct B as [|b B0]; [congruence|]. intros _. apply links_cons2 in HlL. destruct HlL as [(_ & _ & H) _]. exact H. }
+  assert (Hke : k <= c_end c).
+  { destruct (g_close g) eqn:Ecl.
+    - rewrite (g_end_closed g c Hgc Ecl) in Hg. lia.
+    - destruct B as [|b B0]; [|specialize (Hclosed ltac:(discriminate)); congruence].
+      rewrite last_opt_snoc in Ez. inversion Ez; subst. lia. }
+  assert (HidsL : Forall (fun f => 1 <= f_id f) ((g, c) :: B)).
+  { destruct A as [|a0 A'].
+    - cbn [app ids_pos] in Hids. destruct Hids as [HidsB Hh]. constructor; [|exact HidsB].
+      destruct Hh as [H1|(f2 & r' & HB & _)]; [exact H1|].
+      cbn [app ptr_head_ok snd] in Hhead. destruct Hhead as [H1|H1]; [exact H1|]. exfalso.
+      assert (Hcl : g_close g = true) by (apply Hclosed; rewrite HB; discriminate).
+      rewrite (g_end_closed g c Hgc Hcl) in Hg. lia.
+    - cbn [app ids_pos] in Hids. destruct Hids as [Hall _]. apply Forall_app in Hall. exact (proj2 Hall). }
+  destruct (fsplit_head k g c B HokL HlL Hg Hck Hke)
+    as (g' & c' & B' & HLeq & Hok' & Hsp' & Hfirst' & Hall' & Hid' & Hcl' & Hreq & HokB').
+  destruct (split_off_ptr m A ((g, c) :: B) k R ltac:(discriminate) HA HL)
+    as (Hlogs1 & Hcur1 & Hpre1 & Hlim1 & Hact1 & Hdisk1).
+  rewrite HLeq in Hlogs1, Hact1.
+  assert (Hlreq : lreq (g, c) (g', c')).
+  { unfold lreq, f_id, c_end. cbn [fst snd]. rewrite Hfirst', Hall'. auto. }
+  pose proof (links_req B B' Hreq (g, c) (g', c') Hlreq HlL) as HlL'.
+  assert (HF2 : Forall2 lreq ((g, c) :: B) ((g', c') :: B')) by (constructor; [exact Hlreq|apply req_lreq_all; exact Hreq]).
+  pose proof Ez as Ez0. rewrite last_opt_app_cons in Ez.
+  destruct (last_opt_rel' lreq _ _ _ HF2 Ez) as (z' & Ez' & Zi & Zc & Ze). cbn [fst snd] in Zc, Ze.
+  assert (HidsL' : Forall (fun f => 1 <= f_id f) ((g', c') :: B')).
+  { apply (Forall_map f_id (fun i => 1 <= i)). rewrite <- HLeq, fsplit_ids. apply Forall_map. exact HidsL. }
+  assert (Hsp1 : c_split c' = r_index ptr + 1) by lia.
+  destruct (insert_ptr (mgr_split_off m k) g' c' B' ptr Hlogs1 Hact1 Hdisk1) as (Rfin & Hl & Hp);
+    try assumption.
+  { rewrite Hcur1, Hcur. transitivity (Some (f_id z')); [f_equal; symmetry; exact Zi|].
+    symmetry. apply (last_id_intro _ _ Ez'). }
+  { rewrite Hlim1. apply (rp_limit m _ R). }
+  { constructor; assumption. }
+  { apply (chain_intro _ z' HlL' Ez'). rewrite Zc. exact Hopen. }
+  eexists. split; [exact Rfin|]. split; [congruence|]. split; [congruence|].
+  split; [|split; [|split]].
+  - (* the visible records *)
+    match goal with |- files_vis (?P :: ?M :: ?T) = _ => change (P :: M :: T) with ([P] ++ [M] ++ T) end.
+    change ((g, c) :: B) with ([(g, c)] ++ B).
+    rewrite !files_vis_app, !files_vis_one, !above_app. cbn [snd]. rewrite ptr_cst_vis. cbn [app]. f_equal.
+    assert (HvA : above (r_index ptr) (files_vis A) = []).
+    { destruct (list_snoc_cases A) as [->|(A0 & x & HAx)]; [reflexivity|].
+      destruct (HAend A0 x HAx) as [Hxe _].
+      destruct A as [|a0 A']; [destruct A0; discriminate|].
+      destruct (files_vis_bounds (a0 :: A') a0 A' x HokA HlA eq_refl) as [Hi He].
+      { rewrite HAx. apply last_opt_snoc. }
+      apply (above_none _ _ _ Hi). lia. }
+    rewrite HvA. cbn [app]. f_equal.
+    + symmetry. apply (vis_raise c c' (r_index ptr)); (assumption || lia).
+    + rewrite (files_vis_snd B' B (req_snd B B' Hreq)).
+      destruct B as [|b B0]; [reflexivity|].
+      inversion Ht as [|? ? [Hb _] _]; subst.
+      destruct (files_vis_indexed (b :: B0) HokB (links_tail _ _ HlL)) as [Hi _].
+      symmetry. apply (above_all _ _ _ Hi). lia.
+  - cbn [files_first snd]. rewrite ptr_cst_split. reflexivity.
+  - transitivity (Some (c_end (snd z'))).
+    + apply files_end_intro. rewrite last_opt_cons2. exact Ez'.
+    + symmetry. rewrite Ze. apply (files_end_intro _ (gz, cz)). exact Ez0.
+  - intros fl [Hfl Hhd]. split.
+    + apply Forall_app in Hfl. destruct Hfl as [_ Hfl]. apply Forall_inv_tail in Hfl.
+      constructor; [cbn [snd]; rewrite ptr_cst_first, ptr_cst_split; lia|].
+      constructor; [cbn [snd]; intros _; lia|].
+      apply (forall_snd_transfer (fun c0 => c_first c0 < c_split c0 -> c_split c0 <= N.max fl k) B B' (req_snd B B' Hreq)).
+      eapply Forall_impl; [|exact Hfl]. cbn beta. intros f Hf Hlt. specialize (Hf Hlt). lia.
+    + intros _. cbn [snd]. rewrite ptr_cst_end. lia.
+Qed.
+
+(** [mgr_save_pointer_rep] as first stated (without [ptr_head_ok]) does not hold: see
+    [mgr_save_pointer_rep_refuted] below.  This is the closest true statement. *)
+Theorem mgr_save_pointer_rep_alt : forall m (fs : list mfile) ptr,
+  mgr_rep m fs -> ptr_ok fs ptr -> ptr_head_ok fs ptr ->
+  exists fs', mgr_rep (mgr_save_pointer m ptr) fs' /\
+    m_limit (mgr_save_pointer m ptr) = m_limit m /\ m_pre_ptr (mgr_save_pointer m ptr) = m_pre_ptr m /\
+    files_vis fs' = ptr :: above (r_index ptr) (files_vis fs) /\
+    files_first fs' = Some (r_index ptr) /\ files_end fs' = files_end fs.
+Proof.
+  intros m fs ptr R Hok Hhead.
+  destruct (mgr_save_pointer_rep_floor m fs ptr R Hok Hhead) as (fs' & H1 & H2 & H3 & H4 & H5 & H6 & _).
+  exists fs'. auto 10.
+Qed.
+
+(** * BuildSnapshotPointerLog, later calls: the remembered pointer is installed *)
+Theorem mgr_build_pointer_some_floor : forall m (fs : list mfile) ptr prev,
+  mgr_rep m fs -> m_pre_ptr m = Some prev -> ptr_ok fs prev -> ptr_head_ok fs prev ->
+  exists fs', mgr_rep (mgr_build_pointer m ptr) fs' /\
+    m_limit (mgr_build_pointer m ptr) = m_limit m /\ m_pre_ptr (mgr_build_pointer m ptr) = Some ptr /\
+    files_vis fs' = prev :: above (r_index prev) (files_vis fs) /\
+    files_first fs' = Some (r_index prev) /\ files_end fs' = files_end fs /\
+    (forall fl, floor_ok fl fs -> floor_ok (N.max fl (r_index prev + 1)) fs').
+Proof.
+  intros m fs ptr prev R Hpre Hok Hhead. unfold mgr_build_pointer. rewrite Hpre.
+  set (m1 := mkMgr (m_logs m) (m_saved m) (m_actors m) (m_disk m) (m_cur m) (Some ptr) (m_limit m)).
+  destruct (mgr_save_pointer_rep_floor m1 fs prev (rep_set_pre m fs (Some ptr) R) Hok Hhead)
+    as (fs' & R' & Hl & Hp & Hrest).
+  exists fs'. split; [exact R'|]. split; [exact Hl|]. split; [exact Hp|]. exact Hrest.
+Qed.
+
+Theorem mgr_build_pointer_some_alt : forall m (fs : list mfile) ptr prev,
+  mgr_rep m fs -> m_pre_ptr m = Some prev -> ptr_ok fs prev -> ptr_head_ok fs prev ->
+  exists fs', mgr_rep (mgr_build_pointer m ptr) fs' /\
+    m_limit (mgr_build_pointer m ptr) = m_limit m /\ m_pre_ptr (mgr_build_pointer m ptr) = Some ptr /\
+    files_vis fs' = prev :: above (r_index prev) (files_vis fs) /\
+    files_first fs' = Some (r_index prev) /\ files_end fs' = files_end fs.
+Proof.
+  intros m fs ptr prev R Hpre Hok Hhead.
+  destruct (mgr_build_pointer_some_floor m fs ptr prev R Hpre Hok Hhead) as (fs' & H1 & H2 & H3 & H4 & H5 & H6 & _).
+  exists fs'. auto 10.
+Qed.
+
+(** * the side condition is needed
+    [mgr_rep] allows a head file with id 0 that holds several records (its [ids_pos] only asks that
+    file 1 follows).  A pointer for an index inside such a file leaves it in the catalogue, the
+    pointer range gets the id [0 - 1 = 0] as well, [actor_of] finds the actor of the head file, and
+    the catalogue ends with two ranges of id 0: no file list represents it. *)
+Section Refutation.
+  Let r5 := mkRec 5 1 [7].
+  Let r6 := mkRec 6 1 [7].
+  Let cf := c_fresh 4096 5 1 5.
+  Let c0 := c_push (c_push cf r5) r6.
+  Let c1 := c_fresh 4096 7 1 7.
+  Let g0 := mkRange 0 1 5 2 5 true.
+  Let g1 := mkRange 1 1 7 0 7 false.
+  Let fs0 : list mfile := [(g0, c0); (g1, c1)].
+  Let m0 := mkMgr [g0; g1] [g0; g1] [(0, conc c0); (1, conc c1)] [] (Some 1) None 4096.
+  Let ptr := mkRec 5 1 [9].
+
+  Lemma small_rec_ok i v : i < 100 -> v < 256 -> rec_ok (mkRec i 1 [v]) /\ rec_nonempty (mkRec i 1 [v]).
+  Proof.
+    intros Hi Hv. destruct pow_consts as (P62 & P63 & P64). split.
+    - unfold rec_ok. cbn [r_index r_term r_value length]. repeat split; try lia.
+      constructor; [exact Hv|constructor].
+    - right. left. cbn. discriminate.
+  Qed.
+
+  Lemma refut_wf : wfc c0.
+  Proof.
+    destruct (small_rec_ok 5 7 ltac:(lia) ltac:(lia)) as [O5 N5].
+    destruct (small_rec_ok 6 7 ltac:(lia) ltac:(lia)) as [O6 N6].
+    assert (Wf : wfc cf) by (apply wfc_fresh; lia).
+    assert (F5 : is_full (conc cf) = false) by (vm_compute; reflexivity).
+    assert (I5 : r_index r5 = c_first cf + nlen (c_all cf)) by (vm_compute; reflexivity).
+    destruct (write_conc cf r5 Wf F5 I5 O5 N5) as [_ W5].
+    assert (F6 : is_full (conc (c_push cf r5)) = false) by (vm_compute; reflexivity).
+    assert (I6 : r_index r6 = c_first (c_push cf r5) + nlen (c_all (c_push cf r5))) by (vm_compute; reflexivity).
+    destruct (write_conc (c_push cf r5) r6 W5 F6 I6 O6 N6) as [_ W6].
+    exact W6.
+  Qed.
+
+  Lemma refut_rep : mgr_rep m0 fs0.
+  Proof.
+    constructor.
+    - reflexivity.
+    - reflexivity.
+    - intros id. reflexivity.
+    - intros id. reflexivity.
+    - constructor; [|constructor; [|constructor]].
+      + split; [exact refut_wf|]. split; [reflexivity|]. split; [reflexivity|].
+        split; [vm_compute; discriminate|]. split; [vm_compute; reflexivity|]. intros _. reflexivity.
+      + apply (file_ok_fresh 4096 1 1 7); [lia|vm_compute; reflexivity].
+    - split; [|reflexivity]. split; [|split; exact I].
+      split; [reflexivity|]. split; [vm_compute; reflexivity|reflexivity].
+    - split; [constructor; [vm_compute; discriminate|constructor]|].
+      right. exists (g1, c1), []. split; reflexivity.
+    - reflexivity.
+    - cbn [m_limit m0]. unfold HDR_LEN. lia.
+  Qed.
+
+  Lemma refut_ptr_ok : ptr_ok fs0 ptr.
+  Proof.
+    destruct (small_rec_ok 5 9 ltac:(lia) ltac:(lia)) as [O N]. split; [exact O|]. split; [exact N|].
+    exists 5, 7. split; [vm_compute; reflexivity|]. split; [vm_compute; reflexivity|]. cbn [ptr r_index]. lia.
+  Qed.
+
+  Theorem mgr_save_pointer_rep_refuted :
+    ~ (forall m (fs : list mfile) ptr, mgr_rep m fs -> ptr_ok fs ptr ->
+         exists fs', mgr_rep (mgr_save_pointer m ptr) fs').
+  Proof.
+    intros H. destruct (H m0 fs0 ptr refut_rep refut_ptr_ok) as (fs' & R').
+    pose proof (rp_logs _ _ R') as Hlogs. destruct (rp_chain _ _ R') as [Hlinks _].
+    assert (Hl : map g_id (m_logs (mgr_save_pointer m0 ptr)) = [0; 0; 1]) by (vm_compute; reflexivity).
+    rewrite Hlogs in Hl.
+    destruct fs' as [|f1 [|f2 rest]]; try discriminate. cbn [map] in Hl. inversion Hl as [[H1 H2 H3]].
+    destruct Hlinks as [(_ & Hlt & _) _]. unfold f_id in Hlt. lia.
+  Qed.
+End Refutation.
